@@ -124,6 +124,62 @@ def str_case(cls, lens, klen, nvals=1):
     return h
 
 
+def edited_case(cls, lens, klen, edit):
+    """Lookups, then an edit that keeps the item count (rename one item through its public
+    label attribute / reverse the public item list in place), then the same lookups again:
+    the answers must follow the block's current content (no stale lookup tables)."""
+    def h(I):
+        blk, labs, items = _mk(I, cls, lens)
+        key = I.chars("key", klen, kind="any")
+
+        def sweep(sfx):
+            cur = list(iter(blk))
+            I.prove(f"C18.{cls}.len_eq_iter_count{sfx}", len(blk) == len(cur))
+            curlabs = [x.label for x in cur]
+            for j in range(len(cur)):
+                try:
+                    r = blk[j]
+                    exc = None
+                except Exception as e:  # noqa: BLE001
+                    r, exc = None, e
+                I.prove(f"C18.{cls}.index_returns_ith_item{sfx}", exc is None and r is cur[j])
+            for kname, k in [("key", key)] + [(f"lab{j}", l) for j, l in enumerate(curlabs)]:
+                try:
+                    r = blk[k]
+                    exc = None
+                except Exception as e:  # noqa: BLE001
+                    r, exc = None, e
+                try:
+                    c = k in blk
+                    cexc = None
+                except Exception as e:  # noqa: BLE001
+                    c, cexc = None, e
+                first = None
+                for j, lab in enumerate(curlabs):
+                    if I.truth(lab == k):
+                        first = j
+                        break
+                I.observe(f"first{sfx}.{kname}", first)
+                if first is None:
+                    I.prove(f"C18.{cls}.absent_label_raises_KeyError{sfx}", isinstance(exc, KeyError), kname)
+                    I.prove(f"C18.{cls}.absent_label_not_contained{sfx}", cexc is None and I.truth(c) is False, kname)
+                else:
+                    I.prove(f"C18.{cls}.label_returns_first_match{sfx}", exc is None and r is cur[first], kname)
+                    I.prove(f"C18.{cls}.present_label_contained{sfx}", cexc is None and I.truth(c) is True, kname)
+
+        sweep("")
+        if edit == "rename":
+            items[0].label = I.chars("newlab", 1, kind="any")
+        elif edit == "rename_last":
+            items[-1].label = I.chars("newlab", 1, kind="any")
+        else:
+            lst = blk.events if cls == "events" else blk.tracks
+            lst.reverse()
+        I.goal("edited")
+        sweep(".after_edit")
+    return h
+
+
 def other_case(cls, lens):
     def h(I):
         blk, labs, items = _mk(I, cls, lens, kind="valid")
@@ -176,6 +232,9 @@ def instances(tier):
                 if cls == "events" and n:
                     out.append(Instance(f"{cls}.str.{nm}.k{kl}.novalues", str_case(cls, lens, kl, nvals=0), goals=goals, cost=2 ** n))
             out.append(Instance(f"{cls}.other.{nm}", other_case(cls, lens), goals=["done"]))
+            if 2 <= n <= (2 if q else 3):
+                for edit in ["rename", "rename_last"] + (["reverse"] if cls != "emg" else []):
+                    out.append(Instance(f"{cls}.edited.{nm}.{edit}", edited_case(cls, lens, 1, edit), goals=["edited"], cost=2 ** (n + 1)))
         for v in (2**31, -2**31, 2**63, -2**63 - 1, 2**64, 10**30):
             out.append(Instance(f"{cls}.bigint.{v}", bigint_case(cls, (1, 1), v), goals=["out_of_range"]))
     return out
